@@ -12,6 +12,7 @@
 from __future__ import annotations
 
 import abc
+import builtins
 import os
 import struct
 import sys
@@ -1761,7 +1762,11 @@ class _Serializer:
             meth: Callable[[_Serializer, object], None] | None = getattr(
                 self.__class__, methodname, None
             )
-            if meth is None or (tp.__module__ != "builtins" and tp is not Channel):
+            if meth is None or not (
+                tp is Channel
+                or tp is type(None)
+                or getattr(builtins, tp.__name__, None) is tp
+            ):
                 # also a subclass that merely carries a builtin's name
                 raise DumpError(f"can't serialize {tp}") from None
             dispatch = self._dispatch[tp] = meth
